@@ -576,6 +576,23 @@ func explore(p *Prop, tier string, seed uint64) (*agg, *RunResult, *buildInfo) {
 		fmt.Printf("KNOWN-FINDING: property=%s %s (seen in %d runs)\n", p.Reported(), known.describe(k), a.known[k])
 	}
 	os.RemoveAll(filepath.Join(build, "run", p.ID, strconv.Itoa(os.Getpid())))
+	// A known finding that suddenly occurs far more often than recorded is not the known
+	// finding any more (a change made it easier to reach, or hides behind its signature):
+	// explore again without treating it as known, so that it is reported with a replay.
+	if viol == nil {
+		for _, k := range sortedKeys(a.known) {
+			if lim := known.limit(k); lim > 0 && a.known[k] >= 5 && a.known[k]*1000 > lim*a.runs && !suppressKnown[k] {
+				fmt.Printf("known finding %s seen in %d of %d runs, above its recorded limit of %d per mille: exploring again without it\n", k, a.known[k], a.runs, lim)
+				suppressKnown[k] = true
+				a2, v2, _ := explore(p, tier, seed)
+				a.merge(a2)
+				if v2 != nil {
+					viol = v2
+				}
+				break
+			}
+		}
+	}
 	return a, viol, bi
 }
 
@@ -862,13 +879,18 @@ func replayCmd(p *Prop, file string) int {
 
 // ---- known findings ------------------------------------------------------------------
 
+// suppressKnown lists known-finding keys (clause|sig) that are NOT to be treated as known
+// in this process: used when a known finding suddenly occurs far more often than recorded.
+var suppressKnown = map[string]bool{}
+
 type KnownEntry struct {
-	Status   string `json:"status"` // open | fixed
-	Property string `json:"property"`
-	Clause   string `json:"clause"`
-	Sig      string `json:"sig"`
-	What     string `json:"what"`
-	Commit   string `json:"commit,omitempty"`
+	MaxPermille int    `json:"max_permille,omitempty"` // alarm when the finding is seen in more than this share of runs (0 = no limit)
+	Status      string `json:"status"`                 // open | fixed
+	Property    string `json:"property"`
+	Clause      string `json:"clause"`
+	Sig         string `json:"sig"`
+	What        string `json:"what"`
+	Commit      string `json:"commit,omitempty"`
 }
 
 type knownSet struct{ entries []KnownEntry }
@@ -884,7 +906,7 @@ func loadKnown(prop string) *knownSet {
 		infra("known_findings.json: %v", err)
 	}
 	for _, e := range all {
-		if e.Property == prop && e.Status == "open" {
+		if e.Property == prop && e.Status == "open" && !suppressKnown[e.Clause+"|"+e.Sig] {
 			ks.entries = append(ks.entries, e)
 		}
 	}
@@ -906,6 +928,15 @@ func (k *knownSet) match(v *Violation) string {
 		}
 	}
 	return ""
+}
+
+func (k *knownSet) limit(key string) int {
+	for _, e := range k.entries {
+		if e.Clause+"|"+e.Sig == key {
+			return e.MaxPermille
+		}
+	}
+	return 0
 }
 
 func (k *knownSet) describe(key string) string {
